@@ -49,7 +49,9 @@ func render(v *entValue) string {
 }
 
 var entInts = []int64{0, 1, -1, 42, 9223372036854775807, -9223372036854775808, 9007199254740993, 1 << 53, -(1 << 62)}
-var entStrs = []string{"", "plain", "with space", "quote\" and \\ backslash", "<tag>&amp;", "é ü ñ", "日本語", "emoji 😀", "tab\tnewline\nend", "]]>", "a,b;c=d", " lead and trail "}
+var entStrs = []string{"", "plain", "with space", "quote\" and \\ backslash", "<tag>&amp;", "é ü ñ", "日本語", "emoji 😀", "tab\tnewline\nend", "]]>", "a,b;c=d", " lead and trail ",
+	// text that LOOKS like an escape sequence or a character reference but is plain characters
+	"a\\u0026b", "\\u003cb\\u003e", "\\n is not a newline", "&#38; &lt;", "%41%2F", "\\"}
 
 func genEntValue(r *Rng) Sx {
 	items := Ls{}
